@@ -337,13 +337,14 @@ pub fn offset_free(arr: &dyn Array) -> bool {
 #[derive(Clone)]
 pub struct GenCfg {
     pub slice: bool,        // build larger arrays and slice them
+    pub slice_nested: bool, // also slice struct / fixed-size-list / boolean nodes (gives validity bit offsets below structs)
     pub garbage: bool,      // null list entries may have non-zero length; children not masked by parent nulls
     pub pushdown: bool,     // mask children of a struct by the struct's nulls (recursively)
     pub null_pct: u64,      // per-row null probability (percent) when a null buffer is generated
 }
 impl GenCfg {
     pub fn default() -> Self {
-        GenCfg { slice: true, garbage: true, pushdown: false, null_pct: 30 }
+        GenCfg { slice: true, slice_nested: true, garbage: true, pushdown: false, null_pct: 30 }
     }
 }
 
@@ -378,6 +379,7 @@ pub fn mask_nulls(arr: &ArrayRef, mask: &NullBuffer) -> ArrayRef {
             let cols: Vec<ArrayRef> = a.columns().iter().map(|c| mask_nulls(c, &merged)).collect();
             Arc::new(StructArray::new(fs.clone(), cols, Some(merged)))
         }
+        DataType::Boolean => Arc::new(BooleanArray::new(arr.as_boolean().values().clone(), Some(merged))),
         _ => {
             let d = arr.to_data();
             let d = d.into_builder().nulls(Some(merged)).build().unwrap();
@@ -393,7 +395,9 @@ fn gen_word(rng: &mut Rng) -> String {
 
 /// A physical array of logical type `ty` and length `len`.
 pub fn gen_array(rng: &mut Rng, ty: &Ty, len: usize, nullable: bool, cfg: &GenCfg) -> ArrayRef {
-    let (pre, post) = if cfg.slice && rng.chance(1, 2) { (rng.below(4) as usize, rng.below(3) as usize) } else { (0, 0) };
+    let nested_node = matches!(ty, Ty::Struct(_) | Ty::Fsl(_, _) | Ty::Leaf(3));
+    let may_slice = cfg.slice && (cfg.slice_nested || !nested_node);
+    let (pre, post) = if may_slice && rng.chance(1, 2) { (rng.below(4) as usize, rng.below(3) as usize) } else { (0, 0) };
     let p = pre + len + post;
     let nulls = gen_nulls(rng, p, nullable, cfg);
     let arr: ArrayRef = match ty {
@@ -478,4 +482,116 @@ pub fn gen_flds(rng: &mut Rng, depth: u32, names: &[u64], lo: u64, hi: u64) -> V
         out.push(Fld { name, nullable: !rng.chance(1, 6), ty: gen_ty(rng, depth, names) });
     }
     out
+}
+
+// ------------------------------------------------------------------ two sides of a merge from one full array
+/// Split the fields of a struct type into a left and a right selection covering all of them.
+/// `split_lists`: a list/fsl of struct present on both sides may have its item struct split too.
+pub fn split_flds(rng: &mut Rng, f: &[Fld], split_lists: bool) -> (Vec<Fld>, Vec<Fld>) {
+    let mut l = vec![];
+    let mut r = vec![];
+    for fld in f {
+        let choice = if f.len() == 1 { 2 } else { rng.below(3) };
+        match choice {
+            0 => l.push(fld.clone()),
+            1 => r.push(fld.clone()),
+            _ => {
+                let (tl, tr) = split_ty(rng, &fld.ty, split_lists);
+                l.push(Fld { name: fld.name, nullable: fld.nullable, ty: tl });
+                r.push(Fld { name: fld.name, nullable: fld.nullable, ty: tr });
+            }
+        }
+    }
+    if l.is_empty() {
+        l.push(f[0].clone());
+    }
+    if r.is_empty() {
+        r.push(f[f.len() - 1].clone());
+    }
+    if rng.chance(1, 3) {
+        r.reverse();
+    }
+    (l, r)
+}
+fn split_ty(rng: &mut Rng, t: &Ty, split_lists: bool) -> (Ty, Ty) {
+    match t {
+        Ty::Struct(sub) if !sub.is_empty() => {
+            let (a, b) = split_flds(rng, sub, split_lists);
+            (Ty::Struct(a), Ty::Struct(b))
+        }
+        Ty::List(lg, it) if split_lists && rng.chance(2, 3) => {
+            let (a, b) = split_ty(rng, it, split_lists);
+            (Ty::List(*lg, Box::new(a)), Ty::List(*lg, Box::new(b)))
+        }
+        Ty::Fsl(n, it) if split_lists && rng.chance(2, 3) => {
+            let (a, b) = split_ty(rng, it, split_lists);
+            (Ty::Fsl(*n, Box::new(a)), Ty::Fsl(*n, Box::new(b)))
+        }
+        _ => (t.clone(), t.clone()),
+    }
+}
+
+/// Manual projection of `full` (of type `full_ty`) to `sub_ty` (same shape, fewer struct fields); shares buffers.
+pub fn derive(full: &ArrayRef, full_ty: &Ty, sub_ty: &Ty) -> ArrayRef {
+    if full_ty == sub_ty {
+        return full.clone();
+    }
+    match (full_ty, sub_ty) {
+        (Ty::Struct(ff), Ty::Struct(sf)) => {
+            let a = full.as_struct();
+            let cols: Vec<ArrayRef> = sf
+                .iter()
+                .map(|s| {
+                    let k = ff.iter().position(|f| f.name == s.name).unwrap();
+                    derive(a.column(k), &ff[k].ty, &s.ty)
+                })
+                .collect();
+            if sf.is_empty() {
+                Arc::new(StructArray::new_empty_fields(a.len(), a.nulls().cloned()))
+            } else {
+                Arc::new(StructArray::new(flds_to_arrow(sf), cols, a.nulls().cloned()))
+            }
+        }
+        (Ty::List(false, fi), Ty::List(false, si)) => {
+            let a = full.as_list::<i32>();
+            let v = derive(a.values(), fi, si);
+            Arc::new(ListArray::new(Arc::new(Field::new("item", si.to_arrow(), true)), a.offsets().clone(), v, a.nulls().cloned()))
+        }
+        (Ty::List(true, fi), Ty::List(true, si)) => {
+            let a = full.as_list::<i64>();
+            let v = derive(a.values(), fi, si);
+            Arc::new(LargeListArray::new(Arc::new(Field::new("item", si.to_arrow(), true)), a.offsets().clone(), v, a.nulls().cloned()))
+        }
+        (Ty::Fsl(n, fi), Ty::Fsl(_, si)) => {
+            let a = full.as_fixed_size_list();
+            let v = derive(a.values(), fi, si);
+            Arc::new(FixedSizeListArray::new(Arc::new(Field::new("item", si.to_arrow(), true)), *n as i32, v, a.nulls().cloned()))
+        }
+        _ => panic!("derive: incompatible types"),
+    }
+}
+
+/// Replace the validity of some struct nodes (not the root) by fresh random ones.
+pub fn perturb_struct_nulls(rng: &mut Rng, arr: &ArrayRef, ty: &Ty, cfg: &GenCfg, root: bool, prob: u64) -> ArrayRef {
+    match ty {
+        Ty::Struct(fs) if !fs.is_empty() => {
+            let a = arr.as_struct();
+            let mut cols: Vec<ArrayRef> = fs.iter().zip(a.columns()).map(|(f, c)| perturb_struct_nulls(rng, c, &f.ty, cfg, false, prob)).collect();
+            let mut nulls = a.nulls().cloned();
+            if !root && rng.chance(prob, 100) {
+                nulls = gen_nulls(rng, a.len(), true, cfg);
+                if cfg.pushdown {
+                    if let Some(n) = &nulls {
+                        cols = cols.iter().map(|c| mask_nulls(c, n)).collect();
+                    }
+                }
+            }
+            // non-nullable children must stay masked
+            match StructArray::try_new(flds_to_arrow(fs), cols.clone(), nulls) {
+                Ok(s) => Arc::new(s),
+                Err(_) => arr.clone(),
+            }
+        }
+        _ => arr.clone(),
+    }
 }
